@@ -150,9 +150,17 @@ func newTermSessionDeferred(capPath string, deferStart bool) (*termSession, erro
 // c02InsertRun presses Ctrl+I with an n-byte payload and checks what enters
 // the input channel and what the operator is told.
 func c02InsertRun(capPath string, n int) (viols []seamViol, err error) {
+	return c02InsertShaped(capPath, n, 27)
+}
+
+// c02InsertShaped: the payload has a newline every lineLen bytes (0: none).
+func c02InsertShaped(capPath string, n, lineLen int) (viols []seamViol, err error) {
 	payload := make([]byte, n)
 	for i := range payload {
-		payload[i] = "abcdefghijklmnopqrstuvwxyz\n"[i%27]
+		payload[i] = "abcdefghijklmnopqrstuvwxyz"[i%26]
+		if 0 != lineLen && lineLen-1 == i%lineLen {
+			payload[i] = '\n'
+		}
 	}
 	ts, err := newTermSessionOpts(capPath, true, payload, false)
 	if nil != err {
@@ -163,7 +171,7 @@ func c02InsertRun(capPath string, n int) (viols []seamViol, err error) {
 	ts.output()
 	ts.sh.VerifKey(0x09)
 	quiesce.Wait()
-	cs := fmt.Sprintf("insert:%d", n)
+	cs := fmt.Sprintf("insert:%d/line-length:%d", n, lineLen)
 	var got []string
 	for {
 		select {
@@ -399,6 +407,17 @@ func termSeamWorker(args []string) int {
 			}
 		}
 	case "c02i2":
+		/* Inserts whose lines are long (a one-line blob, a minified script)
+		or which have no newline at all. */
+		for _, shape := range [][2]int{{61, 0}, {100, 0}, {5000, 0}, {300, 100}, {5000, 1000}, {200, 61}, {70000, 0}} {
+			vs, err := c02InsertShaped(capPath, shape[0], shape[1])
+			if nil != err {
+				res.Err = err.Error()
+				break
+			}
+			res.Execs++
+			add(vs)
+		}
 		for _, n := range []int{27, 4096, 40000} {
 			vs, err := c02InsertTwiceRun(capPath, n)
 			if nil != err {
